@@ -1694,6 +1694,295 @@ theorem ord_push {s : St} (hi : Inv s) (h : Ord s) (id qi : Nat) (hid : id ∉ s
     · exact lift hh x hhu (qused qi x hx) (this.2 qi hc x hx hne hxw)
     · simp at hx; subst hx; exact older_new (ne_used hh hhu)
 
+
+theorem ord_pstep {s s' : St} (hi : Inv s) (h : Ord s) (hs : pumpStep s = some s') : Ord s' := by
+  have hpi := hi.pump
+  -- a pump step that keeps the core and lands outside d2 / d3 / wr
+  have plain : ∀ (s'' : St), s''.cur = s.cur → s''.qs = s.qs → s''.used = s.used → s''.wire = s.wire →
+      (∀ qj, s''.pump ≠ .d2 qj) → (∀ hh, s''.pump ≠ .d3 hh ∧ s''.pump ≠ .wr hh) → Ord s'' :=
+    fun s'' a b c d e f => ord_same h a b c d (fun qj hp => absurd hp (e qj))
+      (fun hh hp => by rcases hp with hp | hp; exact absurd hp (f hh).1; exact absurd hp (f hh).2)
+  unfold pumpStep at hs
+  cases hp : s.pump <;> rw [hp] at hpi <;> simp only [hp] at hs <;> simp only [PI] at hpi
+  case sel => cases hs
+  case wr => cases hs
+  case rq1 =>
+    cases hs
+    refine plain _ rfl rfl rfl rfl ?_ ?_ <;> intro x <;> cases s.cur <;> simp
+  case rqDel =>
+    cases hs
+    exact plain _ (by simp) (by simp) (by simp) (by simp) (by simp) (by simp)
+  case rq2 qi =>
+    cases hs
+    refine plain _ rfl rfl rfl rfl ?_ ?_ <;> intro x <;> dsimp only <;> (repeat' split) <;> simp
+  case tm1 k =>
+    split at hs <;> cases hs <;> exact plain _ rfl rfl rfl rfl (by simp) (by simp)
+  case tm2 =>
+    cases hs
+    refine plain _ rfl rfl rfl rfl ?_ ?_ <;> intro x <;> dsimp only <;> split <;> simp
+  case tm3 =>
+    cases hs
+    refine plain _ rfl rfl rfl rfl ?_ ?_ <;> intro x <;> cases s.cur <;> simp
+  case tm4 qi => cases hs; exact plain _ rfl rfl rfl rfl (by simp) (by simp)
+  case tm5 oh =>
+    cases oh with
+    | none => cases hs; exact plain _ rfl rfl rfl rfl (by simp) (by simp)
+    | some hh =>
+      cases hs
+      refine plain _ rfl rfl rfl rfl ?_ ?_ <;> intro x <;> dsimp only <;> split <;> simp
+  case tmO =>
+    cases hs
+    refine plain _ rfl rfl rfl rfl ?_ ?_ <;> intro x <;> dsimp only <;> split <;> simp
+  case tmOS => cases hs; exact plain _ (by simp) (by simp) (by simp) (by simp) (by simp) (by simp)
+  case cp1 w hh =>
+    cases hs
+    refine plain _ rfl rfl rfl rfl ?_ ?_ <;> intro x <;> cases s.cur <;> simp [afterCompletion] <;> split <;> simp
+  case cp2 w hh qi =>
+    cases hs
+    by_cases he : (complete s hh qi).2 = true
+    · simp only [he, if_true]
+      obtain ⟨t, hq, hc⟩ := complete_eff s hh qi he
+      rw [hc]
+      exact ord_pop h hh qi t hq rfl rfl rfl rfl (by simp) (by simp)
+    · have he' : (complete s hh qi).2 = false := by simpa using he
+      obtain ⟨h1, _⟩ := complete_noeff s hh qi he'
+      simp only [he', Bool.false_eq_true, if_false, h1]
+      refine plain _ rfl rfl rfl rfl ?_ ?_ <;> intro x <;> simp [afterCompletion] <;> split <;> simp
+  case cp3 w hh =>
+    cases hs
+    refine plain _ (by simp) (by simp) (by simp) (by simp) ?_ ?_ <;> intro x <;> simp [afterCompletion] <;> split <;> simp
+  case wfO hh =>
+    cases hs
+    split <;> exact plain _ rfl rfl rfl rfl (by simp) (by simp)
+  case wfOS hh => cases hs; exact plain _ (by simp) (by simp) (by simp) (by simp) (by simp) (by simp)
+  case cb w hh =>
+    split at hs
+    · cases hs
+    · cases hs; exact plain _ rfl rfl rfl rfl (by simp) (by simp)
+  case rd1 =>
+    split at hs
+    · cases hs; split <;> exact plain _ rfl rfl rfl rfl (by simp) (by simp)
+    · cases hs; exact plain _ rfl rfl rfl rfl (by simp) (by simp)
+  case rd2 =>
+    cases hs
+    refine plain _ rfl rfl rfl rfl ?_ ?_ <;> intro x <;> cases s.cur <;> simp
+  case g1 qi =>
+    cases hs
+    refine plain _ rfl rfl rfl rfl ?_ ?_ <;> intro x <;> dsimp only <;> split <;> simp
+  case g2 qi =>
+    cases hs
+    refine plain _ rfl rfl rfl rfl ?_ ?_ <;> intro x <;> dsimp only <;> split <;> simp
+  case d1 =>
+    cases hs
+    split
+    · exact plain _ rfl rfl rfl rfl (by simp) (by simp)
+    · rename_i qj hc
+      refine ⟨h.last, h.wsort, h.qsort, h.cross, h.front, ?_, by intro hh hp; simp at hp⟩
+      intro q hq w hw x hx
+      simp only [Pump.d2.injEq] at hq; subst hq
+      refine h.front qj hc w hw x hx ?_
+      intro hxw
+      have := hi.g.wq qj hc x hx hxw
+      rw [hpi] at this; cases this
+  case d2 qj =>
+    have hp0 := hp
+    cases hq : getQ s.qs qj with
+    | nil =>
+      simp only [hq] at hs; cases hs
+      exact plain _ rfl rfl rfl rfl (by simp) (by simp)
+    | cons a t =>
+      simp only [hq] at hs; cases hs
+      have ha : a ∈ getQ s.qs qj := by rw [hq]; exact List.mem_cons_self
+      have hlt : qj < s.qs.length := by
+        apply Classical.byContradiction; intro hn
+        rw [getQ_oob s.qs qj (by omega)] at hq; cases hq
+      refine ⟨h.last, h.wsort, h.qsort, h.cross, h.front, by intro q hp; simp at hp, ?_⟩
+      intro hh hp
+      have e : hh = a := by rcases hp with hp | hp <;> simp at hp; exact hp.symm
+      subst e
+      refine ⟨fun w hw => h.pd2 qj hp0 w hw hh ha, ?_⟩
+      intro i hc x hx hne _
+      by_cases e : qj = i
+      · subst e
+        have := h.qsort qj; rw [hq] at this
+        rw [hq] at hx
+        rcases List.mem_cons.mp hx with hx | hx
+        · exact absurd hx hne
+        · exact (List.pairwise_cons.mp this).1 x hx
+      · have := h.last i hc
+        exact h.cross qj i (by omega) hh ha x hx
+  case d3 hh =>
+    cases hs
+    refine ord_same h rfl rfl rfl rfl (by intro qj hp; simp at hp) ?_
+    intro h2 hp'
+    have e : h2 = hh := by rcases hp' with hp' | hp' <;> simp at hp'; exact hp'.symm
+    subst e; exact Or.inl hp
+  case d4 =>
+    cases hs
+    split <;> exact plain _ rfl rfl rfl rfl (by simp) (by simp)
+
+
+theorem ord_rstep {s s' : St} (h : Ord s) (hs : readerStep s = some s') : Ord s' := by
+  unfold readerStep at hs
+  cases hr : s.reader <;> simp only [hr] at hs
+  case idle => cases hs
+  case got id => cases hs; exact ord_same h rfl rfl rfl rfl (fun _ e => e) (fun _ e => e)
+  case lk id => cases hs; exact ord_same h rfl rfl rfl rfl (fun _ e => e) (fun _ e => e)
+  case c1 id => cases hs; exact ord_same h rfl rfl rfl rfl (fun _ e => e) (fun _ e => e)
+  case c3 id => cases hs; exact ord_same h (by simp) (by simp) (by simp) (by simp) (fun _ e => by simpa using e) (fun _ e => by simpa using e)
+  case hd id => cases hs; exact ord_same h rfl rfl rfl rfl (fun _ e => e) (fun _ e => e)
+  case c2 id qi =>
+    cases hs
+    by_cases he : (complete s id qi).2 = true
+    · simp only [he, if_true]
+      obtain ⟨t, hq, hc⟩ := complete_eff s id qi he
+      rw [hc]
+      exact ord_pop h id qi t hq rfl rfl rfl rfl (fun _ e => e) (fun _ e => e)
+    · have he' : (complete s id qi).2 = false := by simpa using he
+      obtain ⟨h1, _⟩ := complete_noeff s id qi he'
+      simp only [he', Bool.false_eq_true, if_false, h1]
+      exact ord_same h rfl rfl rfl rfl (fun _ e => e) (fun _ e => e)
+
+theorem ord_step {s s' : St} (hi : Inv s) (hk : s.sendLock = true) (h : Ord s) (l : Label) (hs : step s l = some s') : Ord s' := by
+  cases l <;> simp only [step] at hs
+  case sget =>
+    split at hs
+    · cases hs; exact ord_same h rfl rfl rfl rfl (fun _ e => e) (fun _ e => e)
+    · cases hs
+  case push id qi =>
+    split at hs
+    · cases hs
+    · rename_i hc
+      cases hs
+      have hid : id ∉ s.used := by intro hm; apply hc; simp [hm]
+      have hq : qi ∈ s.hold := by
+        apply Classical.byContradiction; intro hn
+        apply hc; simp [hn]
+      exact ord_push hi h id qi hid (hi.hl hk qi hq) _ rfl rfl rfl rfl rfl
+  case notify =>
+    split at hs
+    · cases hs; exact ord_same h rfl rfl rfl rfl (fun _ e => e) (fun _ e => e)
+    · cases hs
+  case takeReq =>
+    split at hs
+    · cases hs; exact ord_same h rfl rfl rfl rfl (by intro _ e; simp at e) (by intro _ e; simp at e)
+    · cases hs
+  case takeTimer =>
+    split at hs
+    · split at hs
+      · cases hs; exact ord_same h rfl rfl rfl rfl (by intro _ e; simp at e) (by intro _ e; simp at e)
+      · cases hs
+    · cases hs
+  case takeReady =>
+    split at hs
+    · cases hs; exact ord_same h rfl rfl rfl rfl (by intro _ e; simp at e) (by intro _ e; simp at e)
+    · cases hs
+  case takeOther =>
+    split at hs
+    · cases hs; exact ord_same h rfl rfl rfl rfl (fun _ e => e) (fun _ e => e)
+    · cases hs
+  case otherReady =>
+    split at hs
+    · cases hs; exact ord_same h rfl rfl rfl rfl (fun _ e => e) (fun _ e => e)
+    · cases hs
+  case pstep => exact ord_pstep hi h hs
+  case writeOk =>
+    have hpi := hi.pump
+    split at hs
+    · rename_i hh hp
+      cases hs
+      rw [hp] at hpi; simp only [PI] at hpi
+      have hw := h.pwr hh (Or.inr hp)
+      refine ⟨h.last, ?_, h.qsort, h.cross, ?_, (by intro q e; simp at e), (by intro q e; simp at e)⟩
+      · show (s.wire ++ [hh]).Pairwise (older s.used)
+        rw [List.pairwise_append]
+        exact ⟨h.wsort, by simp, by intro a ha b hb; simp at hb; subst hb; exact hw.1 a ha⟩
+      · intro i hc w hw' x hx hxw
+        change w ∈ s.wire ++ [hh] at hw'
+        change x ∉ s.wire ++ [hh] at hxw
+        have hxw1 : x ∉ s.wire := fun e => hxw (List.mem_append_left _ e)
+        have hxh : x ≠ hh := fun e => hxw (by rw [e]; simp)
+        rcases List.mem_append.mp hw' with h1 | h1
+        · exact h.front i hc w h1 x hx hxw1
+        · simp at h1; subst h1; exact hw.2 i hc x hx hxh hxw1
+    · cases hs
+  case writeFail =>
+    split at hs
+    · cases hs; exact ord_same h rfl rfl rfl rfl (by intro _ e; simp at e) (by intro _ e; simp at e)
+    · cases hs
+  case fire k =>
+    split at hs
+    · cases hs; exact ord_same h rfl rfl rfl rfl (fun _ e => e) (fun _ e => e)
+    · cases hs
+  case sigPost =>
+    split at hs
+    · cases hs; exact ord_same h rfl rfl rfl rfl (fun _ e => e) (fun _ e => e)
+    · cases hs
+  case reply id =>
+    split at hs
+    · cases hs; exact ord_same h rfl rfl rfl rfl (fun _ e => e) (fun _ e => e)
+    · cases hs
+  case rstep => exact ord_rstep h hs
+  case disc =>
+    split at hs
+    · cases hs
+      refine ⟨(by intro i e; cases e), h.wsort, h.qsort, h.cross, (by intro i e; cases e), h.pd2, ?_⟩
+      intro hh hp
+      exact ⟨(h.pwr hh hp).1, (by intro i e; cases e)⟩
+    · cases hs
+  case lstep =>
+    split at hs
+    · cases hs
+    · cases hs; exact ord_same h rfl rfl rfl rfl (fun _ e => e) (fun _ e => e)
+    · cases hs; exact ord_same h rfl rfl rfl rfl (fun _ e => e) (fun _ e => e)
+  case connect =>
+    split at hs
+    · cases hs
+      have empty : ∀ x, x ∉ getQ (s.qs ++ [[]]) s.qs.length := by
+        intro x; rw [getQ_new, getQ_oob s.qs _ (Nat.le_refl _)]; simp
+      refine ⟨?_, h.wsort, ?_, ?_, ?_, ?_, ?_⟩
+      · intro i e; cases e; simp
+      · intro i; rw [getQ_new]; exact h.qsort i
+      · intro i j hij x hx y hy; rw [getQ_new] at hx hy; exact h.cross i j hij x hx y hy
+      · intro i e w _ x hx; cases e; exact absurd hx (empty x)
+      · intro qj hp w hw x hx; rw [getQ_new] at hx; exact h.pd2 qj hp w hw x hx
+      · intro hh hp
+        exact ⟨(h.pwr hh hp).1, (by intro i e x hx; cases e; exact absurd hx (empty x))⟩
+    · cases hs
+
+theorem ord_run (t d : Bool) (ls : List Label) (s : St) (h : runL { tmo := t, dropW := d } ls = some s) :
+    Inv s ∧ s.sendLock = true ∧ Ord s := by
+  suffices ∀ (s0 : St), Inv s0 ∧ s0.sendLock = true ∧ Ord s0 → ∀ ls s, runL s0 ls = some s → Inv s ∧ s.sendLock = true ∧ Ord s from
+    this _ ⟨inv_init t d true, rfl, ord_init t d⟩ ls s h
+  intro s0 h0 ls
+  induction ls generalizing s0 with
+  | nil => intro s h; simp [runL] at h; subst h; exact h0
+  | cons l ls ih =>
+    intro s h
+    simp only [runL] at h
+    cases hst : step s0 l with
+    | none => simp [hst] at h
+    | some s1 =>
+      simp only [hst] at h
+      exact ih s1 ⟨inv_step h0.1 l hst, by rw [step_sendLock l hst]; exact h0.2.1, ord_step h0.1 h0.2.1 h0.2.2 l hst⟩ s h
+
+/-- C02 (server dispatcher, every interleaving, with or without a request timeout): CALLs are written to a client in the
+    order in which the send API accepted them - if `a` was written before `b` then `a` was accepted before `b`, across
+    reconnections too (a request of an earlier connection that still goes out precedes everything of the later one) -/
+theorem written_in_acceptance_order (t d : Bool) (ls : List Label) (s : St) (h : runL { tmo := t, dropW := d } ls = some s) :
+    s.wire.Pairwise (older s.used) := (ord_run t d ls s h).2.2.wsort
+
+/-- queue objects are filled one after the other: everything in an older queue object was accepted before everything in
+    a newer one, and each queue object is in acceptance order -/
+theorem queues_in_acceptance_order (t d : Bool) (ls : List Label) (s : St) (h : runL { tmo := t, dropW := d } ls = some s) :
+    (∀ i, (getQ s.qs i).Pairwise (older s.used)) ∧ (∀ i j, i < j → ∀ x ∈ getQ s.qs i, ∀ y ∈ getQ s.qs j, older s.used x y) :=
+  ⟨(ord_run t d ls s h).2.2.qsort, (ord_run t d ls s h).2.2.cross⟩
+
+/-- non-vacuity: a run that writes two requests, the second one accepted while the first was outstanding -/
+example : (runL {} [.connect, .sget, .push 1 0, .notify, .sget, .push 2 0, .notify, .takeReq, .pstep, .pstep, .pstep, .pstep,
+    .pstep, .pstep, .pstep, .writeOk, .pstep, .reply 1, .rstep, .rstep, .rstep, .rstep, .rstep, .rstep,
+    .takeReady, .pstep, .pstep, .pstep, .pstep, .pstep, .pstep, .pstep, .writeOk]).map (fun s => (s.wire, s.used)) = some ([1, 2], [2, 1]) := by decide
+
 /-! ### non-vacuity and the defect the model exposed -/
 
 /-- the interleaving of scenario `s-orphan-write-fails`: the client reconnects between the pump's queue lookup and its
